@@ -1,6 +1,7 @@
 package c07
 
 import (
+	"flag"
 	"fmt"
 	"strings"
 	"testing"
@@ -141,6 +142,9 @@ func CheckBinding(c BindCase) (hx.Vs, *bindInfo) {
 			if s.K == d.K {
 				continue // same owner and purpose: another generation or the other half of the same key
 			}
+			if d.Hist && s.Hist {
+				continue // historical files are sources for every target and targets for current files only
+			}
 			class := pairClass(s.K, d.K)
 			info.pairs++
 			info.classes["pair:"+class]++
@@ -213,7 +217,8 @@ func CheckBinding(c BindCase) (hx.Vs, *bindInfo) {
 func TestBinding(t *testing.T) {
 	const name = "TestBinding"
 	R.Rule(name, "keystore of either format with two distinct valid client ids (independent or near misses: prefix, case variant, kind-suffix, last char), all six key kinds, 0-2 rotations; EVERY ordered pair of stored objects that belong to different keys (v1: current and historical key files, private and public parts; v2: key ring files) is relocated (copy / rename / swap, generated) and the target key is read through every reader of the API: each read must fail or offer only keys the target offered before, never a key of the source. Non-trivial = at least one pair of objects with different owners or purposes was relocated (always, by construction)")
-	hx.Checks(40, 500)
+	hx.Checks(24, 250)
+	flag.Set("rapid.shrinktime", "10s") // cases are small; every evaluation builds a keystore
 	rapid.Check(t, func(rt *rapid.T) {
 		c := genBindCase(rt)
 		vs, info := CheckBinding(c)
